@@ -320,12 +320,16 @@ theorem stackOk_pop {room : Nat} {c p : View} {rest : List View} (h : stackOk ro
   have hpw := stackOk_top_wf hp
   exact stackOk_update hp (View.writeBack_wf hpw hc hf) (Nat.le_of_eq (View.writeBack_cap hpw hf))
 
+theorem unwindFrom_wf (st : Store) (hs : st.Wf) : ∀ (rest : List View) (c : View),
+    stackOk st.room (c :: rest) → (unwindFrom st c rest).Wf
+  | [], c, hv => Store.release_wf hs hv.1 hv.2
+  | p :: rest, c, hv => unwindFrom_wf st hs rest _ (stackOk_pop hv)
+
 theorem unwindStack_wf (st : Store) (vs : List View) (hs : st.Wf) (hv : stackOk st.room vs) :
     (unwindStack st vs).Wf := by
-  fun_induction unwindStack st vs with
-  | case1 => exact hs
-  | case2 v => exact Store.release_wf hs hv.1 hv.2
-  | case3 c p rest ih => exact ih (stackOk_pop hv)
+  cases vs with
+  | nil => exact hs
+  | cons c rest => exact unwindFrom_wf st hs rest c hv
 
 theorem stackOk_mem {room : Nat} : ∀ {vs : List View}, stackOk room vs → ∀ v ∈ vs, v.Wf
   | [], _, v, hv => by cases hv
